@@ -308,6 +308,16 @@ def gen_fake_layer(rng, kind):
         exp['lookalike'] = 'before'
     elif kind == 'lookalike-after':
         post = rng.choice(['0 0 0\n', '9 9 9\n'])
+    elif kind == 'trailing-noise':
+        # what interpreter shutdown adds after the report (atexit hooks,
+        # "Exception ignored in", logging at exit)
+        post = rng.choice(['Exception ignored in: <function f at 0x1>\n',
+                           'bye\n', 'a b c\n', 'x\n' * 40, '\n\n',
+                           'unterminated tail'])
+    elif kind == 'glued-noise':
+        # an unterminated line on the real stderr right before the report
+        pre = rng.choice(['no newline at end', 'warning: x ', '12'])
+        exp['glued'] = True
     elif kind == 'no-report':
         report = rng.choice(['', 'segmentation fault\n', 'x y z\n', '1 2\n',
                              '1 2 3 4\n'])
@@ -357,6 +367,7 @@ def gen_fake_layer(rng, kind):
 
 FAKE_KINDS = ['wellformed', 'wellformed', 'leading-noise', 'header-variants',
               'lookalike-before', 'lookalike-after', 'no-report',
+              'trailing-noise', 'glued-noise',
               'fewer-names', 'unterminated-name', 'many', 'cr-in-name']
 
 
@@ -372,6 +383,7 @@ def judge_fake(ctx, w, exps, lm, label):
     all_complete = True
     any_lookalike = any(e.get('lookalike') for e in exps.values())
     any_cr = any(e.get('cr') for e in exps.values())
+    any_glued = any(e.get('glued') for e in exps.values())
     for short, e in exps.items():
         full = '%s.%s' % (lm, short)
         if e['complete']:
@@ -406,6 +418,10 @@ def judge_fake(ctx, w, exps, lm, label):
     if mech:
         if any_lookalike:
             mech = 'channel-header-lookalike-noise'
+        elif any_glued and pv['verdict'] is True:
+            # the header is glued to the partial line and no longer parses:
+            # the parent reports 'Could not communicate' for a complete run
+            mech = 'channel-unterminated-noise-glued-to-header'
         elif any_cr:
             mech = 'channel-name-with-carriage-return'
         ctx.V('parent-record-differs-from-what-child-sent', mech,
@@ -551,8 +567,8 @@ def run_spawn(case, ctx):
         env = {}
         pre = None
         if how in ('eagain', 'enomem'):
-            env['ZTR_SPAWN_FAIL'] = '%d:%s' % (rng.randint(1, 2),
-                                                how.upper())
+            env['ZTR_SPAWN_FAIL'] = '%s%d:%s' % (
+                rng.choice(['', 'layer#']), rng.randint(1, 2), how.upper())
         elif how == 'noexe':
             def pre():
                 sys.executable = os.path.join(root, 'no-such-python')
@@ -578,7 +594,15 @@ def run_spawn(case, ctx):
         else:
             pv = parent_view(w)
             sub = [e for e in pv['errs'] if e.startswith('subprocess for')]
-            if pv['verdict'] is not True or not sub:
+            started_layers = {e.get('layer') for e in w.events
+                              if e['k'] == 'spawn'}
+            never = [e for e in w.events if e['k'] == 'spawn.fail' and
+                     e.get('layer') not in started_layers]
+            if how in ('eagain', 'enomem') and not never:
+                # a later attempt started the child after all: nothing
+                # was lost (only reachable if the code retries)
+                ctx.C('spawn_failures_recovered')
+            elif pv['verdict'] is not True or not sub:
                 ctx.V('spawn-failure-not-recorded',
                       'channel-spawn-failure-ignored', how=how, view=pv,
                       out=w.out[-500:])
